@@ -1980,3 +1980,17 @@ package mcp
 //@   modifies *
 //@ func validateTitledEnumEntry [C02]
 //@   nopanic
+
+// sampling/createMessage: the messages are chosen by the server; down-converting them for a basic handler runs in
+// the client's handler goroutine and must not panic on any decoded params (a null message decodes to nil).
+//@ func (*CreateMessageWithToolsParams).toBase [C02]
+//@   nopanic
+//@   requires p != nil
+//@   modifies *
+//@ func (*Client).createMessage [C02]
+//@   nopanic
+//@   callee c.opts.CreateMessageWithToolsHandler: modifies *
+//@   callee c.opts.CreateMessageHandler: modifies *
+//@   callee c.opts.CreateMessageHandler: ensures result.1 == nil ==> result.0 != nil   // application code: a handler that reports success hands back a result (assumed)
+//@   requires c != nil && req != nil && req.Params != nil
+//@   modifies *
